@@ -164,6 +164,23 @@ def _worker(payload):
     return stats, iso, total
 
 
+def builtin_reuse_specs():
+    """The same built-in used twice in one rule, the first use as an alternative of a choice (passes that build on an inlined built-in
+    must not share what they build between the two uses)."""
+    starts = []
+    for b in ("ASCII_ALPHA", "ASCII_ALPHANUMERIC", "ASCII_HEX_DIGIT", "NEWLINE", "ASCII_DIGIT", "ASCII_ALPHA_LOWER"):
+        B = R(b)
+        for lit in ("_", "-"):
+            c1 = ("grp", ("alt", (B, S(lit))))
+            c2 = ("grp", ("alt", (S(lit), B)))
+            other = ("grp", ("alt", (B, S("-" if lit == "_" else "_"))))
+            for body in (("seq", (c1, B)), ("seq", (B, c1)), ("seq", (c1, other)), ("seq", (c2, c1)), ("seq", (("star", c1), B)), ("seq", (c1, ("star", ("grp", ("alt", (B, R("ASCII_DIGIT"))))))),
+                         ("alt", (("seq", (c1, S("!"))), B))):
+                for m in ("", "@"):
+                    starts.append(((), (m, ("seq", (body, R("EOI"))))))
+    return families.batch_specs(starts, (), families.inputs("a_-1\n", 3), "zero", "built-in-reuse")
+
+
 def build_specs(tier: str):
     b = BOUNDS[tier]
     env = gast.Env(HELPERS)
@@ -195,6 +212,8 @@ def build_specs(tier: str):
     wide.extend(families.extra_specs("zero", tier))
     wide.extend(families.skip_specs("zero", tier))
     wide.extend(families.metachar_specs("zero", tier))
+    wide.extend(families.builtin_specs("zero", tier))
+    wide.extend(builtin_reuse_specs())
     names = []
     ins = families.inputs("ab1 #\t\n", 3) + families.inputs("ab1", 4)[40:]
     for entry in NAME_GRAMMARS:
@@ -251,7 +270,7 @@ def run(tier: str) -> int:
                 "(sc = _{ \"a\" | \"b\" }, ss = _{ n ~ \"b\" }) with all unary operators and ~ |, x trivia configuration x start modifier, plus grammars with a user rule named SKIP, tagged groups and built-ins; "
                 "optimizer configurations: the DEFAULT_OPTIMIZER object, the default pipeline, the pipeline applied twice, each of the 5 exported passes alone (these 8 also through generate()), "
                 "every sequence of passes of length 2 and 3 (150) and all 120 permutations of the five (interpreted). Each (chunk, configuration) runs in its own forked child, baseline first. "
-                "Oracle: same success/failure and same tree (incl. tags) as optimizer=None; construction must not raise. Non-trivial: the baseline returned at least one pair" + families.EXTRA_RULE_TEXT + families.SKIP_RULE_TEXT + families.META_RULE_TEXT,
+                "Oracle: same success/failure and same tree (incl. tags) as optimizer=None; construction must not raise. Non-trivial: the baseline returned at least one pair" + families.EXTRA_RULE_TEXT + families.SKIP_RULE_TEXT + families.META_RULE_TEXT + families.BUILTIN_RULE_TEXT + "; plus built-in reuse: a built-in whose body is a choice (ASCII_ALPHA, ASCII_ALPHANUMERIC, ASCII_HEX_DIGIT, NEWLINE) or a range used twice in one rule, in and next to choices with literals",
         "samples": [{"grammar": s.text[:400], "start_rules": list(s.starts)[:5], "n_inputs": len(s.inputs), "family": s.family} for s in common.pick_samples(wide + deep, 3)] + [{"configurations_example": list(all_cfg)[:12]}],
         "exhaustive": True,
         "bounds": {"wide": [{"n": r[0], "trivia": list(r[1]), "mods": list(r[2]), "max_inputs": r[3], "configurations": len(main_cfg)} for r in b["wide"]],
